@@ -1,8 +1,203 @@
-//! C11 L2: raw ICMP on the loopback interface through the real IcmpForwarder (filled in later).
+//! C11 L2: raw ICMP on the loopback interface through the real IcmpForwarder (needs CAP_NET_RAW).
+//!
+//! The real Core::listen with icmp.interface_name = "lo"; HTTP/2 clients each open an `_icmp`
+//! stream and send 7.3 records; a harness raw socket sniffs the echoes the endpoint emits (id, seq,
+//! size, TTL, checksum) and injects forged replies; clients must receive exactly their own replies.
 
-use crate::common::{Args, Reporter};
+use crate::common::{self, Args, Reporter, Rng};
+use crate::env;
+use crate::l2::*;
+use crate::props::c11::ones_sum;
+use bytes::Bytes;
 use serde_json::json;
+use socket2::{Domain, Protocol, Socket, Type};
+use std::mem::MaybeUninit;
+use std::net::{IpAddr, SocketAddr};
+use std::sync::{Arc, Mutex};
+use std::time::Duration;
+use trusttunnel::verif::misc::icmp_table_sizes;
 
-pub fn run_l2(rep: &Reporter, _args: &Args) {
-    rep.set("l2", json!("not exercised yet"));
+fn rec73(id: u16, dst: IpAddr, seq: u16, ttl: u8, size: u16) -> Vec<u8> {
+    let mut v = id.to_be_bytes().to_vec();
+    match dst { IpAddr::V4(x) => { v.extend_from_slice(&[0; 12]); v.extend_from_slice(&x.octets()); } IpAddr::V6(x) => v.extend_from_slice(&x.octets()) }
+    v.extend_from_slice(&seq.to_be_bytes());
+    v.push(ttl);
+    v.extend_from_slice(&size.to_be_bytes());
+    v
+}
+
+#[derive(Clone, Debug)]
+struct Sniffed { ttl: u8, icmp: Vec<u8> }
+
+fn sniffer(stop: Arc<std::sync::atomic::AtomicBool>, out: Arc<Mutex<Vec<Sniffed>>>) -> Option<std::thread::JoinHandle<()>> {
+    let s = Socket::new(Domain::IPV4, Type::from(libc::SOCK_RAW), Some(Protocol::ICMPV4)).ok()?;
+    s.set_read_timeout(Some(Duration::from_millis(100))).ok()?;
+    Some(std::thread::spawn(move || {
+        let mut buf = [MaybeUninit::<u8>::uninit(); 4096];
+        while !stop.load(std::sync::atomic::Ordering::Relaxed) {
+            if let Ok((n, _)) = s.recv_from(&mut buf) {
+                let b: Vec<u8> = buf[..n].iter().map(|x| unsafe { x.assume_init() }).collect();
+                if b.len() < 28 { continue; }
+                let ihl = ((b[0] & 0x0f) as usize) * 4;
+                if b.len() < ihl + 8 { continue; }
+                out.lock().unwrap().push(Sniffed { ttl: b[8], icmp: b[ihl..].to_vec() });
+            }
+        }
+    }))
+}
+
+pub fn run_l2(rep: &Reporter, args: &Args) {
+    // capability probe
+    if Socket::new(Domain::IPV4, Type::from(libc::SOCK_RAW), Some(Protocol::ICMPV4)).is_err() {
+        rep.inconclusive("raw ICMP sockets are not permitted in this environment");
+        rep.set("l2", json!("not exercised: raw sockets not permitted"));
+        return;
+    }
+    let dir = env::work_dir(&args.root, "c11");
+    let rt = env::rt_multi(4);
+    let sniffed: Arc<Mutex<Vec<Sniffed>>> = Default::default();
+    let stop = Arc::new(std::sync::atomic::AtomicBool::new(false));
+    let sn = sniffer(stop.clone(), sniffed.clone());
+    rt.block_on(async {
+        let hosts = Hosts { main: vec![("main.test".into(), vec![])], ..Default::default() };
+        let ep = start_endpoint(&dir, "127.0.0.1", &hosts, None, vec![], (true, true, false), |b| {
+            b.icmp(trusttunnel::settings::IcmpSettings::builder().interface_name("lo").request_timeout(Duration::from_millis(900)).build().unwrap())
+        }).await;
+        tokio::time::sleep(Duration::from_millis(100)).await;
+        let mut r = Rng::derive(args.seed, 0xc11e, 0);
+        let nclients = 3usize;
+        let per_client = args.qt(6, 40) as usize;
+        let base_id: u16 = 0x4000 | (r.next() as u16 & 0x0fff);
+        let mut js = vec![];
+        let all_requests: Arc<Mutex<Vec<(usize, u16, u16, u8, u16, IpAddr)>>> = Default::default();
+        for c in 0..nclients {
+            let addr = ep.addr;
+            let reqs = all_requests.clone();
+            let mut rr = Rng::derive(args.seed, 0xc11f, c as u64);
+            js.push(tokio::spawn(async move {
+                let o = tls_connect(addr, Some("main.test"), &[b"h2"], Duration::from_secs(3)).await;
+                let Some(stream) = o.stream else { return Err("tls".to_string()) };
+                let (mut send, conn) = h2::client::handshake(stream).await.map_err(|e| e.to_string())?;
+                let cj = tokio::spawn(async move { let _ = conn.await; });
+                let _ = futures::future::poll_fn(|cx| send.poll_ready(cx)).await;
+                let (fut, mut tx) = send.send_request(http::Request::builder().method("CONNECT").uri("_icmp").body(()).unwrap(), false).map_err(|e| e.to_string())?;
+                let resp = tokio::time::timeout(Duration::from_secs(3), fut).await.map_err(|_| "no response".to_string())?.map_err(|e| e.to_string())?;
+                if resp.status() != 200 { return Err(format!("_icmp answered {}", resp.status())); }
+                let mut body = resp.into_body();
+                let mut mine = vec![];
+                for k in 0..per_client {
+                    let id = base_id + c as u16;
+                    let seq = (c * 1000 + k) as u16;
+                    let ttl = *rr.pick(&[1u8, 7, 64, 255]);
+                    let size = *rr.pick(&[0u16, 8, 56, 600]);
+                    let dst: IpAddr = if k % 5 == 4 { "::1".parse().unwrap() } else { "127.0.0.1".parse().unwrap() };
+                    let rec = rec73(id, dst, seq, ttl, size);
+                    // records are sometimes split across DATA frames
+                    let cut = if k % 3 == 0 { rr.range(1, rec.len() as u64 - 1) as usize } else { rec.len() };
+                    tx.reserve_capacity(rec.len());
+                    let _ = futures::future::poll_fn(|cx| tx.poll_capacity(cx)).await;
+                    let _ = tx.send_data(Bytes::copy_from_slice(&rec[..cut]), false);
+                    if cut < rec.len() { tokio::time::sleep(Duration::from_millis(3)).await; let _ = tx.send_data(Bytes::copy_from_slice(&rec[cut..]), false); }
+                    mine.push((c, id, seq, ttl, size, dst));
+                    tokio::time::sleep(Duration::from_millis(rr.below(15))).await;
+                }
+                reqs.lock().unwrap().extend(mine.clone());
+                // collect 7.4 records for a while
+                let mut got = vec![];
+                loop {
+                    match tokio::time::timeout(Duration::from_millis(1600), body.data()).await {
+                        Ok(Some(Ok(b))) => { let _ = body.flow_control().release_capacity(b.len()); got.extend_from_slice(&b); }
+                        _ => break,
+                    }
+                }
+                drop(tx);
+                cj.abort();
+                Ok((c, got))
+            }));
+        }
+        // meanwhile: forged replies that must not be reported (wrong id / wrong seq)
+        let forger = Socket::new(Domain::IPV4, Type::from(libc::SOCK_RAW), Some(Protocol::ICMPV4)).ok();
+        if let Some(f) = &forger {
+            tokio::time::sleep(Duration::from_millis(60)).await;
+            for k in 0..20u16 {
+                for (id, seq) in [(base_id + 7, k), (base_id, 60000 + k)] {
+                    let mut p = vec![0u8, 0, 0, 0];
+                    p.extend_from_slice(&id.to_be_bytes());
+                    p.extend_from_slice(&seq.to_be_bytes());
+                    p.extend_from_slice(b"forged!!");
+                    let c = !ones_sum(&p);
+                    p[2..4].copy_from_slice(&c.to_be_bytes());
+                    let to: SocketAddr = "127.0.0.1:0".parse().unwrap();
+                    let _ = f.send_to(&p, &to.into());
+                }
+                tokio::time::sleep(Duration::from_millis(5)).await;
+            }
+        }
+        let mut per_client_records: Vec<(usize, Vec<u8>)> = vec![];
+        for j in js {
+            match j.await { Ok(Ok(x)) => per_client_records.push(x), Ok(Err(e)) => { rep.inconclusive(&format!("icmp client could not be driven: {}", e)); } Err(_) => {} }
+        }
+        // late genuine-looking reply after the timeout: must not be reported (no stream to report on either); table must be empty
+        tokio::time::sleep(Duration::from_millis(1200)).await;
+        let sizes = icmp_table_sizes(&ep.ctx);
+        rep.evals(1);
+        match sizes {
+            Some((0, 0)) => rep.tally("l2: waiter and deadline tables empty after the request timeout", 1),
+            Some((w, d)) => rep.violation("pending echo requests not forgotten after the request timeout (waiter table not empty)", json!({"kind":"icmp-l2","waiters":w,"deadlines":d})),
+            None => rep.inconclusive("icmp forwarder missing"),
+        }
+        let requests = all_requests.lock().unwrap().clone();
+        let sn_copy = sniffed.lock().unwrap().clone();
+        // ---- what went out on the wire (IPv4) ----
+        for (c, id, seq, ttl, size, dst) in &requests {
+            if !dst.is_ipv4() { continue; }
+            rep.evals(1);
+            rep.distinct(common::fnv(format!("wire|{}|{}", id, seq).as_bytes()));
+            let hits: Vec<&Sniffed> = sn_copy.iter().filter(|s| s.icmp[0] == 8 && s.icmp[4..6] == id.to_be_bytes() && s.icmp[6..8] == seq.to_be_bytes()).collect();
+            let w = json!({"kind":"icmp-l2-wire","client":c,"id":id,"seq":seq,"ttl":ttl,"size":size,"echoes_on_wire":hits.len(),"first":hits.first().map(|h| json!({"ttl":h.ttl,"len":h.icmp.len(),"sum":format!("{:#06x}", ones_sum(&h.icmp))}))});
+            if hits.len() != 1 { rep.violation(&format!("{} echo request(s) on the wire for one requested echo", if hits.is_empty() { "no" } else { "several" }), w); continue; }
+            let h = hits[0];
+            if h.ttl != *ttl { rep.violation("echo sent with a TTL different from the requested one", w.clone()); }
+            if h.icmp.len() != 8 + *size as usize { rep.violation("echo sent with a data size different from the requested one", w.clone()); }
+            if ones_sum(&h.icmp) != 0xffff { rep.violation("echo on the wire has an invalid Internet checksum", w.clone()); }
+            if h.ttl == *ttl && h.icmp.len() == 8 + *size as usize && ones_sum(&h.icmp) == 0xffff { rep.tally("l2 wire: one echo per request with requested id/seq/TTL/size and valid checksum", 1); }
+        }
+        // ---- what each client was told ----
+        for (c, bytes) in &per_client_records {
+            rep.evals(1);
+            if bytes.len() % 22 != 0 { rep.violation("reply stream is not a sequence of 22-byte 7.4 records", json!({"client":c,"len":bytes.len()})); continue; }
+            let mut seen: Vec<(u16, u16, u8, u8, IpAddr)> = vec![];
+            for rec in bytes.chunks(22) {
+                let id = u16::from_be_bytes([rec[0], rec[1]]);
+                let mut a = [0u8; 16]; a.copy_from_slice(&rec[2..18]);
+                let addr: IpAddr = if a[..12].iter().all(|x| *x == 0) && a != std::net::Ipv6Addr::LOCALHOST.octets() { IpAddr::from([a[12], a[13], a[14], a[15]]) } else { IpAddr::from(a) };
+                seen.push((id, u16::from_be_bytes([rec[20], rec[21]]), rec[18], rec[19], addr));
+            }
+            let mine: Vec<&(usize, u16, u16, u8, u16, IpAddr)> = requests.iter().filter(|r| r.0 == *c).collect();
+            for (id, seq, t, code, addr) in &seen {
+                let w = json!({"kind":"icmp-l2-report","client":c,"id":id,"seq":seq,"type":t,"code":code,"from":addr.to_string()});
+                match mine.iter().find(|r| r.1 == *id && r.2 == *seq) {
+                    None => rep.violation("client was told about a reply to a request it never sent (another client's, forged or unrelated)", w),
+                    Some(r) => {
+                        // ttl 1 to loopback still arrives; replies come from the destination itself
+                        let ok_type = (*t == 0 && r.5.is_ipv4()) || (*t == 129 && r.5.is_ipv6()) || *t == 3 || *t == 11 || *t == 1;
+                        if !ok_type || (*t == 0 || *t == 129) && *addr != r.5 { rep.violation("reply reported with wrong type or responder address", w); }
+                        else { rep.tally("l2 report: reply matched to its own client in 7.4 format", 1); }
+                    }
+                }
+            }
+            // every IPv4 loopback request is answered by the kernel: it must be reported (at least once)
+            for r in &mine {
+                if r.5.is_ipv4() && !seen.iter().any(|s| s.0 == r.1 && s.1 == r.2) {
+                    rep.violation("echo reply received on the wire was not reported to the requesting client", json!({"kind":"icmp-l2-report","client":c,"id":r.1,"seq":r.2}));
+                }
+            }
+            let dups = seen.len() - { let mut s = seen.iter().map(|x| (x.0, x.1)).collect::<Vec<_>>(); s.sort(); s.dedup(); s.len() };
+            if dups > 0 { rep.tally("l2 report: duplicate reports of one reply (either)", dups as u64); }
+        }
+        rep.set("l2", json!(format!("exercised: {} HTTP/2 clients x {} echo requests over raw ICMP on lo, sniffer + forged replies", per_client_records.len(), per_client)));
+        ep.task.abort();
+    });
+    stop.store(true, std::sync::atomic::Ordering::Relaxed);
+    if let Some(h) = sn { let _ = h.join(); }
 }
